@@ -658,6 +658,25 @@ func (e *Engine) step(st *State) (forks []*State) {
 	case *ssa.Index:
 		return e.index(st, fr, in)
 	case *ssa.Slice:
+		// a symbolic bound (e.g. a count merged from several callee paths): take the value the path condition forces, or
+		// fork over the feasible values and re-execute the instruction with a concrete bound
+		for _, b := range []ssa.Value{in.Low, in.High, in.Max} {
+			if b == nil {
+				continue
+			}
+			if _, isConst := b.(*ssa.Const); isConst {
+				continue
+			}
+			t := asTerm(e.val(fr, b))
+			if t.IsConst() {
+				continue
+			}
+			if c := e.concretize(st, t); c.IsConst() {
+				fr.regs[b] = c
+				continue
+			}
+			return e.forkOnValue(st, b, t, 0, 64)
+		}
 		fr.regs[in] = e.sliceOp(st, fr, in)
 	case *ssa.MakeSlice:
 		n, ok := e.concreteInt(st, e.val(fr, in.Len), "make len")
@@ -883,6 +902,52 @@ func (e *Engine) makeSliceSymbolic(st *State, fr *Frame, in *ssa.MakeSlice) []*S
 		}
 		tgt.top().regs[in] = SliceVal{Obj: tgt.alloc(arr), Len: a.n, Cap: a.c}
 		tgt.top().ip++
+	}
+	return forks
+}
+
+// forkOnValue splits st by the value of the integer register v (term t) over lo..hi; values outside that window make
+// the job inconclusive. The current instruction is re-executed on every fork (ip is not advanced).
+func (e *Engine) forkOnValue(st *State, v ssa.Value, t *Term, lo, hi int) []*State {
+	w := t.Sort.Width
+	outside := Or(BVCmp("bvslt", t, ConstBV(uint64(lo), w)), BVCmp("bvsgt", t, ConstBV(uint64(hi), w)))
+	neg := BVCmp("bvslt", t, ConstBV(0, w))
+	if r := e.S.Check(st.pc, And(outside, Not(neg))); r != Unsat {
+		e.S.EndModel()
+		unsupported("symbolic bound may exceed %d", hi)
+	}
+	e.S.EndModel()
+	var live []int
+	if r := e.S.Check(st.pc, neg); r != Unsat {
+		live = append(live, -1)
+	}
+	e.S.EndModel()
+	for x := lo; x <= hi; x++ {
+		r := e.S.Check(st.pc, Eq(t, ConstBV(uint64(x), w)))
+		e.S.EndModel()
+		if r != Unsat {
+			live = append(live, x)
+		}
+	}
+	if len(live) == 0 {
+		st.dead = true
+		return nil
+	}
+	var forks []*State
+	for k, x := range live {
+		tgt := st
+		if k < len(live)-1 {
+			tgt = st.clone()
+			forks = append(forks, tgt)
+		}
+		if x < 0 {
+			// any negative value: the instruction will report its own out-of-range panic on -1
+			tgt.pc = append(tgt.pc, neg)
+			tgt.top().regs[v] = ConstBV(^uint64(0), w)
+			continue
+		}
+		tgt.pc = append(tgt.pc, Eq(t, ConstBV(uint64(x), w)))
+		tgt.top().regs[v] = ConstBV(uint64(x), w)
 	}
 	return forks
 }
@@ -1268,6 +1333,9 @@ func (e *Engine) convert(st *State, v Value, from, to types.Type) Value {
 	}
 	if sl, ok := to.Underlying().(*types.Slice); ok {
 		if s, ok2 := v.(StringVal); ok2 {
+			if s.Atom != nil {
+				unsupported("[]byte of an atom (atoms have identity, not content)")
+			}
 			if w, _, _ := intWidth(sl.Elem()); w == 8 {
 				arr := ArrayVal{Elems: make([]Value, len(s.Bytes))}
 				for i, b := range s.Bytes {
@@ -1389,6 +1457,9 @@ func (e *Engine) index(st *State, fr *Frame, in *ssa.Index) []*State {
 	case ArrayVal:
 		elems = c.Elems
 	case StringVal:
+		if c.Atom != nil {
+			unsupported("indexing an atom (atoms have identity, not content)")
+		}
 		elems = make([]Value, len(c.Bytes))
 		for i, b := range c.Bytes {
 			elems[i] = b
@@ -1447,6 +1518,9 @@ func (e *Engine) sliceOp(st *State, fr *Frame, in *ssa.Slice) Value {
 	}
 	switch c := x.(type) {
 	case StringVal:
+		if c.Atom != nil {
+			unsupported("slicing an atom (atoms have identity, not content)")
+		}
 		lo, hi := get(in.Low, 0), get(in.High, len(c.Bytes))
 		if lo < 0 || hi > len(c.Bytes) || lo > hi {
 			e.fail(st, "panic", fmt.Sprintf("slice bounds out of range [%d:%d] with length %d", lo, hi, len(c.Bytes)))
@@ -1493,6 +1567,9 @@ func (e *Engine) mapObj(st *State, m MapVal) *MapObj {
 func (e *Engine) lookup(st *State, fr *Frame, in *ssa.Lookup) []*State {
 	x := e.val(fr, in.X)
 	if s, ok := x.(StringVal); ok {
+		if s.Atom != nil {
+			unsupported("indexing an atom (atoms have identity, not content)")
+		}
 		idx := Resize(asTerm(e.val(fr, in.Index)), 64, true)
 		if !idx.IsConst() {
 			unsupported("symbolic string index")
@@ -1613,6 +1690,9 @@ func (e *Engine) rangeOp(st *State, fr *Frame, in *ssa.Range) Value {
 	x := e.val(fr, in.X)
 	switch c := x.(type) {
 	case StringVal:
+		if c.Atom != nil {
+			unsupported("range over an atom (atoms have identity, not content)")
+		}
 		it := &IterVal{}
 		for i, b := range c.Bytes {
 			// ASCII assumption: one rune per byte; enforced by a recorded obligation
